@@ -201,13 +201,16 @@ class Ctx:
         with Lock("build"):
             gosum = os.path.join(HARNESS, "go.sum")
             shutil.copyfile(os.path.join(REPO, "go.sum"), gosum)
-            rc, out, err, dt = run(["go", "build", "-tags", "verif", "-o", os.path.join(BUILD, "drv"), "./cmd/drv"], cwd=HARNESS, env=GOENV, timeout=1200)
+            rc, out, err, dt = run(["go", "build", "-tags", "verif", "-o", self.drv_path(), "./cmd/drv-" + self.pid.lower()], cwd=HARNESS, env=GOENV, timeout=1200)
         if rc != 0:
             return False, err
         return True, ""
 
+    def drv_path(self):
+        return os.path.join(BUILD, "drv-" + self.pid.lower())
+
     def drv(self, args, timeout=600, input=None):
-        cmd = [os.path.join(BUILD, "drv"), "-seed", str(self.seed), "-tier", self.tier, "-scratch", os.path.join(self.scratch, "drv")] + args
+        cmd = [self.drv_path(), "-seed", str(self.seed), "-tier", self.tier, "-scratch", os.path.join(self.scratch, "drv")] + args
         os.makedirs(os.path.join(self.scratch, "drv"), exist_ok=True)
         rc, out, err, dt = run(cmd, timeout=timeout, input=input, env=GOENV)
         return rc, out, err
